@@ -11,6 +11,19 @@ import framework as fw, nums
 ID = "C10"
 FAMILY = "energy"
 OCAML_SRCS = ("conv.ml", "drv_energy.ml")
+ASSUMPTIONS = [
+    "hypotheses of C10_vcycle_nonexpansive that are other properties: A_{l+1} = P_l^T A_l P_l (C08; evaluated here on the dumped "
+    "hierarchy of the small cases within 1e-9), restriction = P^T (C02; mult_T is modelled and compared through the whole cycle), "
+    "sweep formula (C11; both row updates are modelled and compared through the whole cycle), exact coarsest solve (C09)",
+    "every coarse operator nonsingular: Ruge-Stuben by construction of P; smoothed aggregation verified per case from the LU pivots "
+    "of the coarsest operator (min/max > 1e-12), otherwise the case is skipped and counted",
+    "rows of every relaxed level start with a positive diagonal entry (sweep_wf/posdiag): reported by the driver per level and "
+    "re-checked by the extracted sweep_wfb on the dumped hierarchy",
+    "floating-point rounding is not modelled: monotonicity is required within 1e-10 relative slack plus a floor of "
+    "1e-22*(||x*||_A^2 + E_0); model/implementation iterates are compared within 1e-8 relative / 1e-11 absolute",
+    "the residual-history bound ||r_k||^2 <= G*E_0 (G = Gershgorin bound of lambda_max) used on solve() is a paper consequence of "
+    "the theorem, not a Coq theorem",
+]
 
 REL_SLACK = Fraction(1, 10**10)      # rounding slack of the monotonicity test (relative)
 ABS_FLOOR = Fraction(1, 10**22)      # times (||x*||_A^2 + E_0): below this the error is rounding noise
